@@ -11,7 +11,7 @@ from fractions import Fraction
 from . import e2_formula as F
 from .core import Unsupported
 from . import c06_sem as cs
-from .c06_sem import Run, NS, eq, is_rat, unfn, split_call, untuple, atoms_in, texts_in, factors, place, signature, single_atom, is_unknown
+from .c06_sem import Run, NS, eq, is_rat, unfn, split_call, untuple, atoms_in, texts_in, factors, place, signature, single_atom
 
 CB = "pyyeti/cb.py"
 N2P = "pyyeti/nastran/n2p.py"
